@@ -984,6 +984,9 @@ ok("C03", "_apply_pt_mpos with renamed temporaries", _multi(
 
 
 # ------------------------------------------------------------------ generic silence variants
+from selftest import generic as _generic  # noqa: E402
+
+
 def _reformat_all(scratch: str):
     """Every module re-printed by ast.unparse: comments, layout, line numbers,
     parenthesisation and string quoting change; behaviour does not."""
@@ -1025,6 +1028,10 @@ for _pid in ["C01", "C02", "C03", "C04", "C05", "C06", "C07", "C08", "C09", "C10
              "C14", "C15", "C16", "C17", "C18", "C19", "C20"]:
     ok(_pid, "whole package re-printed with ast.unparse (layout, comments, line numbers)", _reformat_all)
     ok(_pid, "every module shifted by forty lines", _shift_lines)
+    ok(_pid, "every function-local variable renamed (alpha-renaming of the whole package)",
+       _generic.rename_locals)
+    ok(_pid, "every two-armed if flipped to `if not c: B else: A`", _generic.flip_branches)
+    ok(_pid, "keyword arguments of every call in reverse order", _generic.reverse_kwargs)
 
 ok("C02", "selector locals renamed in Tempo._influence", _multi(
     _sub(TE, "tmp_deg_positions", "positions_pair", count=100)))
